@@ -268,6 +268,7 @@ func checkC03(ctx *core.Ctx, rep *core.Report) {
 		}
 		rep.Sample(2, map[string]interface{}{"seed": sd.Name, "instants": len(instants)})
 	}
+	c03MetaHistories(ctx, rep, sel)
 	if ctx.Shard == 0 {
 		c03DER(ctx, rep, instants)
 		c03Mocks(ctx, rep, sel)
